@@ -6,6 +6,11 @@ Require Import IW.UT.Ulist IW.UT.Ulist_proofs IW.UT.Sarr IW.UT.Sarr_proofs IW.UT
 Require Import IW.UT.Xstr IW.UT.Xstr_proofs IW.UT.Avl IW.UT.Avl_proofs IW.UT.Pool IW.UT.Pool_proofs.
 Require Import IW.UT.Plist IW.UT.Plist_proofs.
 Require Import IW.UT.Pforest IW.UT.Pforest_proofs.
+Require Import IW.UT.Hmap_own_proofs IW.UT.Hmap_iter_proofs.
+Require Import IW.UT.Rb_ring_proofs.
+Require Import IW.UT.AvlWalk IW.UT.AvlWalk_proofs.
+Require Import IW.UT.ListSort_proofs IW.UT.Plist_own_proofs IW.UT.Sarr_run_proofs.
+Require Import IW.UT.PoolStr IW.UT.PoolStr_proofs.
 Import ListNotations.
 
 (* ================================================================ T1: the static hash functions at probe points *)
@@ -15,6 +20,12 @@ Example C18_hash_u64_samples : forallb (fun p => Z.eqb (hash_u64 (fst p)) (snd p
 Proof. vm_compute. reflexivity. Qed.
 Example C18_hash_str_samples : forallb (fun p => Z.eqb (hash_str (fst p)) (snd p)) CONT_hash_str_samples = true.
 Proof. vm_compute. reflexivity. Qed.
+
+(* iwchars_is_space on all 256 byte values (the trimming of iwpool_split_string) and the pointer size of the pointer arrays *)
+Example C18_is_space_table :
+  forallb (fun i => Bool.eqb (is_space (Z.of_nat i)) (Z.eqb (nth i CONT_is_space_table 0%Z) 1%Z)) (seq 0 256) = true /\
+  length CONT_is_space_table = 256%nat /\ P_PTR_SIZE = 8%nat.
+Proof. vm_compute. repeat split; reflexivity. Qed.
 
 (* ================================================================ hash map (iwhmap.c) *)
 (* For every key type with a decidable equality that cmp_fn implements, every hash function, every LRU bound (or none),
@@ -95,6 +106,161 @@ Proof. vm_compute. reflexivity. Qed.
 Example C18_hmap_keq_example : forall a b : Z, Z.eqb a b = true <-> a = b.
 Proof. exact Z.eqb_eq. Qed.
 
+(* ---------------------------------------------------------------- hash map: ownership over the whole life of a map *)
+(* iwhmap_destroy after ANY call sequence (iwhmap_lru_init at any time included): kv_free_fn is called for exactly the
+   entries still held, in iteration order; every LRU node is released (the node heap is empty); no released node is
+   touched; and together with the callbacks of the run every non-null value ever put was reported exactly once. *)
+Theorem C18_hmap_destroy_frees_rest : forall (K : Type) (keq : K -> K -> bool) (hashf : K -> Z),
+  (forall a b : K, keq a b = true <-> a = b) ->
+  forall (max : option Z) (ikp : bool) (ops : list (hop K)),
+  let m := clear_log K (h_exec K keq hashf (hnew K max ikp) ops) in
+  let d := hdestroy K m in
+  h_log K d = map (fun p : K * Z => (fkey K m (fst p), snd p)) (hiter K m) /\
+  (forall n : nat, hget K (h_heap K d) n = None) /\
+  h_fault K d = false /\
+  Permutation (nz (puts K ops)) (nz (freed K (h_run K keq hashf (hnew K max ikp) ops) ++ lvals K (h_log K d))).
+Proof. exact destroy_frees_rest. Qed.
+Print Assumptions C18_hmap_destroy_frees_rest.
+
+(* KEYS of maps that own them (int_key_as_pointer_value = false): iwhmap_put hands `key` over, iwhmap_rename hands
+   key_new over only when key_old is present (`handed`); over every call sequence these instances are, as a
+   multiset, the keys shown to kv_free_fn plus the keys still held ... *)
+Theorem C18_hmap_keys_conserved : forall (K : Type) (keq : K -> K -> bool) (hashf : K -> Z),
+  (forall a b : K, keq a b = true <-> a = b) ->
+  forall (max : option Z) (ops : list (hop K)),
+  Permutation (handed K keq (s_new K max false) ops)
+    (freed_keys K (h_run K keq hashf (hnew K max false) ops) ++
+     map fst (hiter K (h_exec K keq hashf (hnew K max false) ops))).
+Proof. exact keys_conserved. Qed.
+Print Assumptions C18_hmap_keys_conserved.
+
+(* ... and after iwhmap_destroy every key instance handed over was shown to kv_free_fn exactly once. *)
+Theorem C18_hmap_keys_freed_by_destroy : forall (K : Type) (keq : K -> K -> bool) (hashf : K -> Z),
+  (forall a b : K, keq a b = true <-> a = b) ->
+  forall (max : option Z) (ops : list (hop K)),
+  let d := hdestroy K (clear_log K (h_exec K keq hashf (hnew K max false) ops)) in
+  Permutation (handed K keq (s_new K max false) ops)
+    (freed_keys K (h_run K keq hashf (hnew K max false) ops) ++ okeys K (h_log K d)).
+Proof. exact keys_freed_by_destroy. Qed.
+Print Assumptions C18_hmap_keys_freed_by_destroy.
+
+(* u32 / u64 maps (int_key_as_pointer_value): the callback never sees a key, not in a run and not in destroy. *)
+Theorem C18_hmap_ikp_no_keys : forall (K : Type) (keq : K -> K -> bool) (hashf : K -> Z),
+  (forall a b : K, keq a b = true <-> a = b) ->
+  forall (max : option Z) (ops : list (hop K)),
+  freed_keys K (h_run K keq hashf (hnew K max true) ops) = nil /\
+  okeys K (h_log K (hdestroy K (clear_log K (h_exec K keq hashf (hnew K max true) ops)))) = nil.
+Proof. exact ikp_no_keys. Qed.
+Print Assumptions C18_hmap_ikp_no_keys.
+
+(* Nothing is reported to kv_free_fn while still reachable and nothing twice: when the non-null values put are pairwise
+   distinct, a value a call reports is not among the values of the iteration after that call and was not reported
+   by any earlier call. *)
+Theorem C18_hmap_freed_not_held : forall (K : Type) (keq : K -> K -> bool) (hashf : K -> Z),
+  (forall a b : K, keq a b = true <-> a = b) ->
+  forall (max : option Z) (ikp : bool) (ops : list (hop K)) (op : hop K),
+  NoDup (nz (puts K (ops ++ op :: nil))) ->
+  let m := h_exec K keq hashf (hnew K max ikp) ops in
+  let m' := fst (h_step K keq hashf m op) in
+  let o := snd (h_step K keq hashf m op) in
+  forall v : Z, v <> 0%Z -> In v (lvals K (out_log K o)) ->
+    ~ In v (map snd (hiter K m')) /\ ~ In v (freed K (h_run K keq hashf (hnew K max ikp) ops)).
+Proof. exact freed_not_held. Qed.
+Print Assumptions C18_hmap_freed_not_held.
+
+(* the hypotheses are satisfiable: a map that owns its keys; rename of an absent key hands nothing over *)
+Example C18_hmap_own_example :
+  let ops := [HPut Z 1 101; HPut Z 2 102; HPut Z 1 103; HRename Z 9 4; HRename Z 2 1; HPut Z 3 0; HRemove Z 3]%Z in
+  NoDup (nz (puts Z ops)) /\
+  handed Z Z.eqb (s_new Z (Some 5%Z) false) ops = [1; 2; 1; 1; 3]%Z /\
+  freed_keys Z (h_run Z Z.eqb hash_ptr (hnew Z (Some 5%Z) false) ops) = [1; 2; 1; 3]%Z /\
+  hiter Z (h_exec Z Z.eqb hash_ptr (hnew Z (Some 5%Z) false) ops) = [(1, 102)]%Z /\
+  h_log Z (hdestroy Z (clear_log Z (h_exec Z Z.eqb hash_ptr (hnew Z (Some 5%Z) false) ops))) = [(Some 1, 102)]%Z.
+Proof.
+  vm_compute. split; [|repeat split; reflexivity].
+  repeat constructor; simpl; intuition discriminate.
+Qed.
+
+(* ---------------------------------------------------------------- hash map: the iterator, step by step *)
+(* After ANY call sequence the loop `iwhmap_iter_init; while (iwhmap_iter_next)` - modelled step by step (entry = -1,
+   ++entry, scan to the next bucket in use, false at the end) - delivers exactly `hiter` (every entry once, bucket
+   order) in h_count successful calls and touches nothing outside the bucket array.  It ends with iter->bucket =
+   n_buckets; one MORE call in that state returns false and changes nothing in the guarded variant (so do all later
+   calls), but in the code it reads buckets[n_buckets].used, one element past the array (it_fault). *)
+Theorem C18_hmap_iter_steps : forall (K : Type) (keq : K -> K -> bool) (hashf : K -> Z),
+  (forall a b : K, keq a b = true <-> a = b) ->
+  forall (max : option Z) (ikp : bool) (ops : list (hop K)),
+  let m := h_exec K keq hashf (hnew K max ikp) ops in
+  exists itf : iter K,
+    hiter_steps K m = (hiter K m, itf, Z.to_nat (h_count K m)) /\
+    it_fault K itf = false /\ it_bucket K itf = Z.to_nat (h_mask K m + 1) /\
+    iter_next K true m itf = (itf, false) /\
+    it_fault K (fst (iter_next K false m itf)) = true.
+Proof. exact iter_steps_ok. Qed.
+Print Assumptions C18_hmap_iter_steps.
+
+(* "a further iwhmap_iter_next stays false" as a statement about the CODE is false: witness one put, replayed on the
+   library by `hm iterx` (ASan: heap-buffer-overflow READ in iwhmap_iter_next; fixes/hmap-iter-next-past-end.diff) *)
+Theorem C18_hmap_iter_next_after_end_refuted :
+  exists ops : list (hop Z),
+    let m := h_exec Z Z.eqb hash_u32 (hnew Z None true) ops in
+    let itf := snd (fst (hiter_steps Z m)) in
+    it_fault Z itf = false /\ it_fault Z (fst (iter_next Z false m itf)) = true.
+Proof. exists [HPut Z 1 5]%Z. vm_compute. split; reflexivity. Qed.
+Print Assumptions C18_hmap_iter_next_after_end_refuted.
+
+(* iter->hm == 0: false, nothing changes (both variants) *)
+Theorem C18_hmap_iter_nohm : forall (K : Type) (g : bool) (m : hmap K),
+  iter_next K g m (iter_init K false) = (iter_init K false, false).
+Proof. exact iter_next_nohm. Qed.
+Print Assumptions C18_hmap_iter_nohm.
+
+(* iwhmap_lru_eviction_max_count at the boundary: count == max -> false, count == max + 1 -> true *)
+Theorem C18_hmap_evmax_boundary : forall (K : Type) (m : hmap K) (mx : Z),
+  (h_count K m = mx -> hevmax K m mx = false) /\ (h_count K m = mx + 1 -> hevmax K m mx = true)%Z.
+Proof. exact hevmax_boundary. Qed.
+Print Assumptions C18_hmap_evmax_boundary.
+
+(* ---------------------------------------------------------------- hash map: iwhmap_lru_init at any time *)
+(* C18_hmap_refines_map quantifies over op lists that contain HLruInit anywhere.  Scenario: three entries exist, then
+   lru_init 1: nothing is evicted by the init; the next put (count 4 > 1) finds only ITS OWN key in the recency list,
+   evicts it and stops with count 3 > 1; a get gives key 2 a node; put 5 evicts 2 and 5; lru_init 10 lifts the bound. *)
+Example C18_hmap_lruinit_example :
+  h_run Z Z.eqb hash_u32 (hnew Z None true)
+    [HPut Z 1 101; HPut Z 2 102; HPut Z 3 103; HLruInit Z 1; HLru Z; HPut Z 4 104; HCount Z; HLru Z;
+     HGet Z 2; HLru Z; HPut Z 5 105; HLru Z; HLruInit Z 10; HPut Z 6 106; HPut Z 1 111; HLru Z; HCount Z]%Z
+  = [OPut Z 1 [(None, 0)]; OPut Z 2 [(None, 0)]; OPut Z 3 [(None, 0)]; OLruInit Z; OLru Z [] true;
+     OPut Z 3 [(None, 0); (None, 104)]; OCount Z 3; OLru Z [] true;
+     OGet Z 102 3 []; OLru Z [2] true; OPut Z 2 [(None, 0); (None, 102); (None, 105)]; OLru Z [] true; OLruInit Z;
+     OPut Z 3 [(None, 0)]; OPut Z 3 [(None, 101)]; OLru Z [6; 1] true; OCount Z 3]%Z.
+Proof. vm_compute. reflexivity. Qed.
+
+(* The invariant "LRU on -> every entry has a node" generalised: after every call sequence the keys whose entry owns an
+   LRU node are exactly the keys of the specification's recency list (which has no duplicates); a map whose LRU is off
+   has no node. *)
+Theorem C18_hmap_nodes_are_recency : forall (K : Type) (keq : K -> K -> bool) (hashf : K -> Z),
+  (forall a b : K, keq a b = true <-> a = b) ->
+  forall (max : option Z) (ikp : bool) (ops : list (hop K)),
+  let m := h_exec K keq hashf (hnew K max ikp) ops in
+  let s := s_exec K keq (s_new K max ikp) ops in
+  NoDup (s_rec K s) /\
+  (forall k : K, In k (s_rec K s) <->
+     exists e : entry K, In e (ents K (h_bkts K m)) /\ e_key K e = k /\ e_lru K e <> None) /\
+  (h_max K m = None -> forall e : entry K, In e (ents K (h_bkts K m)) -> e_lru K e = None).
+Proof. exact nodes_are_recency. Qed.
+Print Assumptions C18_hmap_nodes_are_recency.
+
+(* a non-trivial reachable state meeting the invariant of C18_dll_wf: keys 5, 102, 199, 296 share one bucket (the
+   harness' pointer hash x mod 97), LRU bound 3, key 5 was evicted, 102 was renamed to 296, 199 was touched *)
+Example C18_hmap_dll_example :
+  let m := h_exec Z Z.eqb hash_ptr (hnew Z (Some 3%Z) false)
+             [HPut Z 5 1; HPut Z 102 2; HPut Z 199 3; HPut Z 7 4; HRename Z 102 296; HGet Z 199]%Z in
+  (hshape Z m, hlru Z m, hiter Z m, h_fault Z m) =
+    ((63, [(5%nat, 2, 4); (7%nat, 1, 4)]), ([7; 296; 199], true), [(199, 3); (296, 2); (7, 4)], false)%Z /\
+  (h_first Z m, h_last Z m, map fst (h_heap Z m), lru_ids Z (ents Z (h_bkts Z m))) =
+    (Some 3%nat, Some 2%nat, [2; 3; 4]%nat, [2; 4; 3]%nat).
+Proof. vm_compute. split; reflexivity. Qed.
+
 (* ================================================================ unit list (iwulist, byte level) *)
 Theorem C18_ulist_refines_list : forall (il us : nat) (ops : list uop),
   (0 < us)%nat -> Forall (uop_ok us) ops -> u_run (u_init il us) ops = l_run nil ops.
@@ -165,6 +331,98 @@ Theorem C18_plist_shift_late_refuted :
 Proof. exact shift_late_refuted. Qed.
 Print Assumptions C18_plist_shift_late_refuted.
 
+(* ================================================================ both lists: state invariant, sort, ownership *)
+(* outputs AND state in one statement per list: after every call sequence the byte-level / slot-level structure is well formed
+   and its live elements are exactly the reference list *)
+Theorem C18_ulist_refines_list_inv : forall (il us : nat) (ops : list uop), (0 < us)%nat -> Forall (uop_ok us) ops ->
+  let l := u_exec (u_init il us) ops in
+  u_run (u_init il us) ops = l_run [] ops /\
+  u_wf l /\ u_usize l = us /\ u_units l = ListSort_proofs.l_exec [] ops /\ u_num l = length (ListSort_proofs.l_exec [] ops).
+Proof. exact ulist_refines_list_inv. Qed.
+Print Assumptions C18_ulist_refines_list_inv.
+
+Theorem C18_plist_refines_list_inv : forall (an : nat) (ops : list plop),
+  let l := pl_exec (pl_init an) ops in
+  pl_run (pl_init an) ops = list_run [] ops /\
+  pl_wf l /\ pl_items l = list_exec [] ops /\ pl_num l = length (list_exec [] ops).
+Proof. exact plist_refines_list_inv. Qed.
+Print Assumptions C18_plist_refines_list_inv.
+
+(* reachable states that went through a growth (33rd push: anum 32 -> 65), an unshift relocation (start 0 -> 32, then 31) and,
+   two shifts later, the shrink (anum >= 2 * num: compaction to start 0 and anum 32) *)
+Example C18_ulist_reachable_example :
+  let ops := map (fun i => UPush [Z.of_nat i]) (seq 0 33) ++ [UUnshift [99%Z]] ++ repeat UShift 1 in
+  let l := u_exec (u_init 0 1) ops in
+  let l2 := u_exec (u_init 0 1) (ops ++ repeat UShift 2) in
+  (u_anum l, u_start l, u_num l) = (65, 32, 33)%nat /\ hd_error (u_units l) = Some [0%Z] /\
+  (u_anum l2, u_start l2, u_num l2) = (32, 1, 31)%nat /\ hd_error (u_units l2) = Some [2%Z].
+Proof. vm_compute. repeat split; reflexivity. Qed.
+
+(* SORT.  The library sorts with sort_r (quicksort), the models with an insertion sort.  For the comparators of the harness
+   (bytes_leb = memcmp over the common prefix, then the shorter string first) the sorted result is unique, so the algorithm is
+   irrelevant: after ANY call sequence iwulist_sort / iwlist_sort leave the list sorted, a permutation of what it held, and
+   equal to every sorted permutation of it *)
+Theorem C18_ulist_sort_correct : forall (il us : nat) (ops : list uop), (0 < us)%nat -> Forall (uop_ok us) ops ->
+  let s := sort_units (ListSort_proofs.l_exec [] ops) in
+  u_run (u_init il us) (ops ++ [USort; UClone]) = l_run [] ops ++ [ORc U_OK; OList s] /\
+  Sorted.StronglySorted bytes_le s /\ Permutation s (ListSort_proofs.l_exec [] ops) /\
+  (forall s', Sorted.StronglySorted bytes_le s' -> Permutation s' (ListSort_proofs.l_exec [] ops) -> s' = s).
+Proof. exact ulist_sort_reachable. Qed.
+Print Assumptions C18_ulist_sort_correct.
+
+Theorem C18_plist_sort_correct : forall (an : nat) (ops : list plop),
+  let s := pl_sort_items (list_exec [] ops) in
+  pl_run (pl_init an) (ops ++ [PLSort; PLClone]) = list_run [] ops ++ [PLORc PL_OK; PLOList s] /\
+  Sorted.StronglySorted bytes_le s /\ Permutation s (list_exec [] ops) /\
+  (forall s', Sorted.StronglySorted bytes_le s' -> Permutation s' (list_exec [] ops) -> s' = s).
+Proof. exact plist_sort_reachable. Qed.
+Print Assumptions C18_plist_sort_correct.
+
+(* the order of the model is memcmp's (unsigned bytes as Z in 0..255): decided by the first differing byte, else by the lengths *)
+Theorem C18_sort_order_is_memcmp : forall a b : list Z,
+  bytes_leb a b = match memcmp_lt a b with Some lt => lt | None => (length a <=? length b)%nat end.
+Proof. exact bytes_leb_is_memcmp. Qed.
+Print Assumptions C18_sort_order_is_memcmp.
+
+Example C18_sort_example :
+  sort_units [[3; 200]; [1; 5]; [3; 7]; [1; 5]]%Z = [[1; 5]; [1; 5]; [3; 7]; [3; 200]]%Z /\
+  pl_sort_items [[98]; [97; 98]; []; [97]]%Z = [[]; [97]; [97; 98]; [98]]%Z.
+Proof. vm_compute. split; reflexivity. Qed.
+
+(* OWNERSHIP of iwlist (a malloc'ed copy per item).  iwlist_destroy after ANY call sequence frees exactly the live items of the
+   reference list, in order - never one of the stale pointers that pop / shift / remove / the compaction leave in the array *)
+Theorem C18_plist_destroy_frees_live : forall (an : nat) (ops : list plop),
+  pl_destroy (pl_exec (pl_init an) ops) = map (@Some (list Z)) (list_exec [] ops).
+Proof. exact plist_destroy_frees_live. Qed.
+Print Assumptions C18_plist_destroy_frees_live.
+
+(* ... and every byte string stored by a successful push / unshift / insert / set ends in exactly one place: handed to the caller
+   by pop / shift / remove, overwritten in place by a later set, or freed by destroy *)
+Theorem C18_plist_freed_exactly_once : forall (an : nat) (ops : list plop),
+  Permutation (pl_stored_run [] ops)
+    (pl_handed_run ops (pl_run (pl_init an) ops) ++ pl_overwritten_run [] ops ++
+     map slot_bytes (pl_destroy (pl_exec (pl_init an) ops))).
+Proof. exact plist_ownership. Qed.
+Print Assumptions C18_plist_freed_exactly_once.
+
+Theorem C18_plist_freed_at_most_once : forall (an : nat) (ops : list plop), NoDup (pl_stored_run [] ops) ->
+  NoDup (pl_handed_run ops (pl_run (pl_init an) ops) ++ pl_overwritten_run [] ops ++
+         map slot_bytes (pl_destroy (pl_exec (pl_init an) ops))).
+Proof. exact plist_released_once. Qed.
+Print Assumptions C18_plist_freed_at_most_once.
+
+(* the hypothesis is satisfiable and the parts are non-trivial: unique items, one of each way out *)
+Example C18_plist_ownership_example :
+  let ops := [PLPush [1]; PLPush [2]; PLUnshift [3]; PLInsert 1 [4]; PLSet 0 [5]; PLShift; PLPop; PLRemove 5; PLInsert 9 [6]]%Z in
+  NoDup (pl_stored_run [] ops) /\
+  pl_stored_run [] ops = [[1]; [2]; [3]; [4]; [5]]%Z /\
+  pl_handed_run ops (pl_run (pl_init 0) ops) = [[5]; [2]]%Z /\ pl_overwritten_run [] ops = [[3]]%Z /\
+  pl_destroy (pl_exec (pl_init 0) ops) = [Some [4]; Some [1]]%Z.
+Proof.
+  cbv zeta. split; [| vm_compute; repeat split; reflexivity].
+  vm_compute. repeat constructor; cbn; intuition discriminate.
+Qed.
+
 (* ================================================================ sorted-array helpers (binary search) *)
 Theorem C18_sorted_find2_correct : forall (A : Type) (cmp : A -> A -> Z) (dflt : A) (key : A -> Z),
   (forall a b : A, (cmp a b =? 0)%Z = (key a =? key b)%Z /\ (cmp a b <? 0)%Z = (key a <? key b)%Z) ->
@@ -216,6 +474,31 @@ Example C18_sorted_example :
   = ([(1, 1); (3, 9); (3, 2); (5, 3)]%Z, 1%Z).
 Proof. vm_compute. reflexivity. Qed.
 
+(* ONE statement over operation lists: starting from the empty array, after EVERY list of insert (skipeq yes / no) / remove /
+   find / find2 calls the array is sorted, its key sequence is exactly the ascending reference list of keys with multiplicity
+   (insert adds one key unless skipeq and the key is present; remove deletes one occurrence), and find answers membership
+   with a correct index *)
+Theorem C18_sorted_refines_keys : forall (A : Type) (cmp : A -> A -> Z) (dflt : A) (key : A -> Z),
+  (forall a b : A, (cmp a b =? 0)%Z = (key a =? key b)%Z /\ (cmp a b <? 0)%Z = (key a <? key b)%Z) ->
+  forall ops : list (sop A),
+  let els := sa_exec A cmp dflt [] ops in
+  Sarr_proofs.sorted A dflt key els /\ map key els = k_exec A key [] ops /\
+  Sorted.StronglySorted zle (map key els) /\
+  (forall e : A, let i := sorted_find A cmp dflt els e in
+     (i = (-1)%Z /\ k_mem (key e) (k_exec A key [] ops) = false) \/
+     ((0 <= i < Z.of_nat (length els))%Z /\ key (el A dflt els i) = key e /\ k_mem (key e) (k_exec A key [] ops) = true)).
+Proof. exact sarr_refines_sorted_keys. Qed.
+Print Assumptions C18_sorted_refines_keys.
+
+(* with duplicates: keys 5 3 5 (kept) 3 (skipped: skipeq) 4, remove one 5, remove the absent 7 *)
+Example C18_sorted_run_example :
+  let cmp := (fun a b : Z * Z => fst a - fst b)%Z in
+  let ops := [SIns _ (5, 1) false; SIns _ (3, 2) false; SIns _ (5, 3) false; SIns _ (3, 4) true; SIns _ (4, 5) true;
+              SRm _ (5, 0); SRm _ (7, 0)]%Z in
+  map fst (sa_exec (Z * Z) cmp (0, 0)%Z [] ops) = [3; 4; 5]%Z /\ k_exec (Z * Z) fst [] ops = [3; 4; 5]%Z /\
+  sa_run (Z * Z) cmp (0, 0)%Z [] ops = [SOIdx 0; SOIdx 0; SOIdx 1; SOIdx (-1); SOIdx 1; SOIdx 2; SOIdx (-1)]%Z.
+Proof. vm_compute. repeat split; reflexivity. Qed.
+
 (* ================================================================ ring buffer (iwrb.c) *)
 (* put / clear anywhere, back while the ring has not wrapped: count, newest unit and the iteration are those of the
    bounded newest-first list *)
@@ -225,16 +508,78 @@ Theorem C18_rb_refines_deque : forall (U : Type) (dflt : U) (len : Z) (ops : lis
 Proof. exact rb_refines_deque. Qed.
 Print Assumptions C18_rb_refines_deque.
 
-(* back on a wrapped ring (incl. position 1, the defect fixed by fe01ba6): the newest unit afterwards is the
-   second newest before.  _partial: the cached count keeps saying len and the dropped unit reappears as the oldest one
-   of the iteration - the ring has no count field, so the full deque statement is false of the code. *)
-Theorem C18_rb_back_wrapped_partial : forall (U : Type) (dflt : U) (len : Z),
+(* THE RING AT FULL STRENGTH.  The ring has no count field: pos < 0 = -pos slots filled, pos > 0 = wrapped with the newest
+   unit in slot pos - 1, and a wrapped ring always reports len units.  Exact reference g_step: state = (wrapped, newest-first
+   list); put conses and cuts to len (setting the flag when the list was full); back drops the newest unit while the ring
+   has not wrapped and ROTATES afterwards (the unit reappears as the oldest one); clear resets.  For every capacity and EVERY
+   sequence of put / back / clear - no hypothesis on the order - count, peek and the complete iteration agree. *)
+Theorem C18_rb_refines_ring : forall (U : Type) (dflt : U) (len : Z) (ops : list (rop U)), (0 < len)%Z ->
+  rb_run U dflt (rb_create U dflt len) ops = g_run U len (false, []) ops.
+Proof. exact rb_refines_ring. Qed.
+Print Assumptions C18_rb_refines_ring.
+
+(* every reachable ring: related to the reference state, wrapped exactly when the reference says so and then holding exactly
+   len units; the position stays within -len .. len and the buffer keeps its len slots *)
+Theorem C18_rb_reachable_inv : forall (U : Type) (dflt : U) (len : Z) (ops : list (rop U)), (0 < len)%Z ->
+  let r := rb_exec U (rb_create U dflt len) ops in
+  let s := g_exec U len (false, []) ops in
+  rb_rel U dflt len r (snd s) /\ fst s = (0 <? r_pos U r)%Z /\
+  (Z.of_nat (length (snd s)) <= len)%Z /\ (fst s = true -> Z.of_nat (length (snd s)) = len) /\
+  (- len <= r_pos U r <= len)%Z /\ r_len U r = len /\ length (r_buf U r) = Z.to_nat len.
+Proof. exact rb_reachable_inv. Qed.
+Print Assumptions C18_rb_reachable_inv.
+
+(* "the ring holds exactly the last cap items in order": after cap or more puts in a row - whatever happened before, backs on a
+   wrapped ring included - the iteration is exactly the last len units put, newest first, the count is len, peek is the last one *)
+Theorem C18_rb_put_heals : forall (U : Type) (dflt : U) (len : Z), (0 < len)%Z ->
+  forall (ops : list (rop U)) (xs : list U), (Z.to_nat len <= length xs)%nat ->
+  let r := rb_exec U (rb_create U dflt len) (ops ++ map (RPut U) xs) in
+  rb_iter U dflt r = firstn (Z.to_nat len) (rev xs) /\ rb_num_cached U r = len /\ rb_peek U dflt r = hd_error (rev xs).
+Proof. exact rb_put_heals. Qed.
+Print Assumptions C18_rb_put_heals.
+
+(* the iterator: once iwrb_iter_prev has returned NULL it keeps returning NULL; and the iteration of a reachable ring ends by
+   that NULL after at most len units (a larger loop bound yields the same units) *)
+Theorem C18_rb_iter_null_stays : forall (U : Type) (dflt : U) (r : rb U) (st st' : Z * Z),
+  it_prev U dflt r st = (None, st') -> it_prev U dflt r st' = (None, st').
+Proof. exact it_prev_null_stays. Qed.
+Print Assumptions C18_rb_iter_null_stays.
+
+Theorem C18_rb_iter_ends_by_null : forall (U : Type) (dflt : U) (len : Z), (0 < len)%Z ->
+  forall (r : rb U) (d : list U) (extra : nat), rb_rel U dflt len r d ->
+  it_all U dflt (S (S (S (Z.to_nat (r_len U r)))) + extra) r (it_init U r) = d /\ (Z.of_nat (length d) <= len)%Z.
+Proof. exact rb_iter_fuel_irrelevant. Qed.
+Print Assumptions C18_rb_iter_ends_by_null.
+
+(* back on a wrapped ring (incl. position 1, the defect fixed by fe01ba6): the newest unit afterwards is the second newest before *)
+Theorem C18_rb_back_wrapped_peek : forall (U : Type) (dflt : U) (len : Z),
   (0 < len)%Z ->
   forall (r : rb U) (d : list U),
   rb_rel U dflt len r d -> (0 < r_pos U r)%Z -> (2 <= length d)%nat ->
   rb_peek U dflt (rb_back U r) = nth_error d 1.
 Proof. exact rb_back_wrapped_peek. Qed.
-Print Assumptions C18_rb_back_wrapped_partial.
+Print Assumptions C18_rb_back_wrapped_peek.
+
+(* the bounded-deque statement without the hypothesis back_safe is FALSE of the code: capacity 3, put 1 2 3 4, back: the
+   deque holds 3 2, the ring reports 3 units and iterates 3 2 4 (finding C18-rb-back-wrapped, notes/cont.md) *)
+Theorem C18_rb_deque_refuted : exists ops : list (rop Z),
+  rb_run Z 0%Z (rb_create Z 0%Z 3) ops <> d_run Z 3 [] ops /\
+  rb_run Z 0%Z (rb_create Z 0%Z 3) ops = g_run Z 3 (false, []) ops /\
+  last (rb_run Z 0%Z (rb_create Z 0%Z 3) ops) (0%Z, None, []) = (3%Z, Some 3%Z, [3; 2; 4]%Z) /\
+  last (d_run Z 3 [] ops) (0%Z, None, []) = (2%Z, Some 3%Z, [3; 2]%Z).
+Proof. exact rb_deque_refuted. Qed.
+Print Assumptions C18_rb_deque_refuted.
+
+(* a reachable wrapped ring after a back at position 1: capacity 3, seven puts, two backs (the second one from slot 1 to slot 3) *)
+Example C18_rb_ring_example :
+  let ops := [RPut Z 1; RPut Z 2; RPut Z 3; RPut Z 4; RPut Z 5; RBack Z; RBack Z; RPut Z 6]%Z in
+  let r := rb_exec Z (rb_create Z 0%Z 3) ops in
+  g_exec Z 3 (false, []) ops = (true, [6; 3; 5]%Z) /\ r_pos Z r = 1%Z /\ rb_iter Z 0%Z r = [6; 3; 5]%Z /\
+  rb_rel Z 0%Z 3 r [6; 3; 5]%Z.
+Proof.
+  cbv zeta. split; [vm_compute; reflexivity |]. split; [vm_compute; reflexivity |]. split; [vm_compute; reflexivity |].
+  exact (proj1 (rb_reachable_inv Z 0%Z 3 _ eq_refl)).
+Qed.
 
 Example C18_rb_example :
   rb_run Z 0%Z (rb_create Z 0%Z 3) [RPut Z 1; RPut Z 2; RBack Z; RPut Z 3; RPut Z 4; RPut Z 5]%Z
@@ -243,16 +588,84 @@ Example C18_rb_example :
 Proof. vm_compute. reflexivity. Qed.
 
 (* ================================================================ growable string (iwxstr.c, byte level) *)
-(* size, data and the terminator byte after every call (cat, unshift, shift, pop, insert, clear, clone) *)
-Theorem C18_xstr_refines_bytes : forall (siz : nat) (ops : list xop), x_run (x_create siz) ops = Xstr.s_run nil ops.
+(* ONE statement over operation lists (cat, unshift, shift, pop, insert, clear, clone, set_size).  Reference state = the byte
+   string and the byte t that sits where the terminator belongs: 0 after every call except iwxstr_set_size, which writes no
+   terminator (after shrinking to n it is the old data byte n; insert moves it along; shift 0 / pop 0 / an empty or out-of-bounds
+   insert leave it).  Every call answers as the reference does - return code, size, data and that byte - and the state keeps
+   its invariant: buffer length = asize, size < asize, data = reference.  Hypothesis sz_ok: no set_size GROWS the string
+   (growing exposes bytes nobody wrote; C18_xstr_set_size_grow says what holds then) *)
+Theorem C18_xstr_refines_bytes : forall (siz : nat) (ops : list xop), sz_ok ([], 0%Z) ops ->
+  x_run (x_create siz) ops = Xstr.s_run ([], 0%Z) ops /\
+  let x := x_exec (x_create siz) ops in
+  let st := xs_exec ([], 0%Z) ops in
+  length (x_mem x) = x_asize x /\ (x_size x < x_asize x)%nat /\ x_data x = fst st /\ x_term x = snd st /\
+  x_size x = length (fst st).
 Proof. exact xstr_refines_bytes. Qed.
 Print Assumptions C18_xstr_refines_bytes.
+
+(* without set_size there is no hypothesis at all, and the string is terminated after every call sequence *)
+Theorem C18_xstr_refines_bytes_terminated : forall (siz : nat) (ops : list xop), Forall no_set_size ops ->
+  x_run (x_create siz) ops = Xstr.s_run ([], 0%Z) ops /\
+  x_inv (x_exec (x_create siz) ops) /\ x_data (x_exec (x_create siz) ops) = fst (xs_exec ([], 0%Z) ops).
+Proof. exact xstr_refines_bytes_terminated. Qed.
+Print Assumptions C18_xstr_refines_bytes_terminated.
+
+(* iwxstr_set_size beyond the size, from any state of the invariant: size = n, room for a terminator (n < asize), the old data
+   and the byte after it are where they were, asize never shrinks *)
+Theorem C18_xstr_set_size_grow : forall (x : xstr) (n : nat) (t : Z), x_invt x t -> (x_size x < n)%nat ->
+  let x' := x_set_size x n in
+  x_size x' = n /\ (n < x_asize x')%nat /\ length (x_mem x') = x_asize x' /\
+  firstn (x_size x) (x_mem x') = x_data x /\ nth (x_size x) (x_mem x') (-1)%Z = t /\ (x_asize x <= x_asize x')%nat.
+Proof. exact x_set_size_grow. Qed.
+Print Assumptions C18_xstr_set_size_grow.
+
+(* iwxstr_printf_alloc starts from `struct iwxstr xstr = {0}` (no buffer, asize 0): the result holds the text, terminated, in a
+   block of exactly len + 1 bytes; iwxstr_new_printf = create_empty + printf *)
+Theorem C18_xstr_printf_alloc : forall bs : list Z,
+  (x_inv (x_printf_alloc bs) /\ x_data (x_printf_alloc bs) = bs /\ x_asize (x_printf_alloc bs) = (length bs + 1)%nat) /\
+  (x_inv (x_new_printf bs) /\ x_data (x_new_printf bs) = bs).
+Proof. intro bs. exact (conj (x_printf_alloc_spec bs) (x_new_printf_spec bs)). Qed.
+Print Assumptions C18_xstr_printf_alloc.
+
+(* iwxstr_wrap of a heap buffer of max(asize, 1) bytes holding size <= asize data bytes: terminated, same data, and a buffer with
+   room for the terminator (reallocated to size + 1 when the caller's buffer is full) *)
+Theorem C18_xstr_wrap : forall (buf : list Z) (size asize : nat), length buf = Nat.max asize 1 -> (size <= asize)%nat ->
+  x_inv (x_wrap buf size asize) /\ x_data (x_wrap buf size asize) = firstn size buf /\
+  x_asize (x_wrap buf size asize) = (if (asize <=? size)%nat then (size + 1)%nat else asize).
+Proof. exact x_wrap_spec. Qed.
+Print Assumptions C18_xstr_wrap.
+
+(* OWNERSHIP of the user datum: over every sequence of iwxstr_user_data_set / get / detach calls ended by iwxstr_destroy or
+   iwxstr_destroy_keep_ptr the destructor calls are xu_freed; every datum destroyed was installed with a destructor; with pairwise
+   distinct data none is destroyed twice; without a detach every datum installed with a destructor is destroyed exactly once *)
+Theorem C18_xstr_user_data_freed_once : forall ops : list xuop,
+  xu_destroy (xu_exec xu_new ops) = xu_freed [] ops /\
+  (forall d, In d (xu_freed [] ops) -> In d (xu_installed ops)) /\
+  (NoDup (xu_installed ops) -> NoDup (xu_freed [] ops)) /\
+  (Forall (fun op => op <> XUDetach) ops -> xu_freed [] ops = xu_installed ops).
+Proof. exact xud_destroyed_once. Qed.
+Print Assumptions C18_xstr_user_data_freed_once.
 
 Example C18_xstr_example :
   x_run (x_create 2) [XCat [97;98;99]; XUnshift [90]; XInsert 2 [120;120]; XShift 1; XClone]%Z
   = [(X_OK, 3%nat, [97; 98; 99], 0); (X_OK, 4%nat, [90; 97; 98; 99], 0); (X_OK, 6%nat, [90; 97; 120; 120; 98; 99], 0);
      (X_OK, 5%nat, [97; 120; 120; 98; 99], 0); (X_OK, 5%nat, [97; 120; 120; 98; 99], 0)]%Z.
 Proof. vm_compute. reflexivity. Qed.
+
+(* a reachable state after a doubling (asize 2 -> 4), a jump (asize = exactly the need, 11), a shift and a shrinking set_size:
+   the hypothesis sz_ok holds, the string is NOT terminated (byte 101 where the terminator belongs), insert carries that byte along *)
+Example C18_xstr_reachable_example :
+  let ops := [XCat [97]; XCat [98; 99]; XCat [100; 101; 102; 103; 104; 105; 106]; XShift 2; XSetSize 2; XInsert 1 [33]]%Z in
+  sz_ok ([], 0%Z) ops /\
+  let x := x_exec (x_create 2) ops in
+  (x_size x, x_asize x, x_data x, x_term x) = (3%nat, 11%nat, [99; 33; 100]%Z, 101%Z) /\
+  xs_exec ([], 0%Z) ops = ([99; 33; 100]%Z, 101%Z).
+Proof. cbv zeta. split; [vm_compute; repeat split; repeat constructor |]. vm_compute. split; reflexivity. Qed.
+
+Example C18_xstr_user_data_example :
+  let ops := [XUSet (Some 1) true; XUSet (Some 2) true; XUDetach; XUSet (Some 3) false; XUSet (Some 4) true]%nat in
+  xu_destroy (xu_exec xu_new ops) = [Some 1; Some 4]%nat /\ xu_installed ops = [Some 1; Some 2; Some 4]%nat.
+Proof. vm_compute. split; reflexivity. Qed.
 
 (* ================================================================ AVL tree (iwavl.c) *)
 Theorem C18_avl_insert_ok : forall (t : tree) (k : Z), bst t -> balanced t ->
@@ -288,6 +701,72 @@ Example C18_avl_example :
      OMod true [1; 2; 3; 8]; OFind false (Some 3) (Some 8)]%Z.
 Proof. vm_compute. reflexivity. Qed.
 
+(* ONE statement over operation lists at full strength: after EVERY sequence of insert / remove / lookup+bounds calls the tree is
+   a search tree, every stored balance factor equals height(right) - height(left) and lies in -1 .. 1, the in-order keys are the
+   reference set, the outputs of all calls equal those of the sorted-set reference, the height is logarithmic in the number of
+   keys, and the three parent-pointer traversals of iwavl.c (below) yield in-order, reverse in-order and postorder *)
+Theorem C18_avl_refines_set_inv : forall ops : list aop,
+  let t := av_exec Leaf ops in
+  bst t /\ balanced t /\
+  av_run Leaf ops = set_run [] ops /\
+  av_inorder t = fold_left (fun s o => fst (set_step s o)) ops [] /\
+  (2 ^ (height t / 2) <= Z.of_nat (av_size t) + 1)%Z /\
+  av_walk_fwd t = av_inorder t /\ av_walk_bwd t = rev (av_inorder t) /\ av_walk_post t = av_postorder t.
+Proof. exact avl_refines_set_inv. Qed.
+Print Assumptions C18_avl_refines_set_inv.
+
+(* a reachable state that went through a single rotation (1 2 3), a double rotation (insert 5 then 4) and a removal of a node with
+   two children whose shrink rebalances (remove 2): the tree, its balance factors and the three traversals *)
+Example C18_avl_reachable_example :
+  let t := av_exec Leaf [AIns 1; AIns 2; AIns 3; AIns 5; AIns 4; AIns 7; AIns 6; ARm 2; ARm 1]%Z in
+  t = Node (Node Leaf 3 0 Leaf) 4 1 (Node (Node Leaf 5 0 Leaf) 6 0 (Node Leaf 7 0 Leaf)) /\
+  av_walk_fwd t = [3; 4; 5; 6; 7]%Z /\ av_walk_bwd t = [7; 6; 5; 4; 3]%Z /\ av_walk_post t = [3; 5; 7; 6; 4]%Z /\
+  height t = 3%Z.
+Proof. vm_compute. repeat split; reflexivity. Qed.
+
+(* ---- the non-recursive traversals (iwavl_first/last/next/prev_in_order, iwavl_first/next_in_postorder; model UT/AvlWalk.v with
+   the parent chain explicit).  For EVERY tree - no search-tree or balance hypothesis - and every loop bound that is at least the
+   number of nodes: the forward walk visits exactly the in-order sequence and ends with NULL, the backward walk its reverse,
+   the postorder walk the postorder sequence *)
+Theorem C18_avl_walk_forward : forall (t : tree) (extra : nat),
+  walk SR (av_size t + extra) (av_first t) = av_inorder t.
+Proof. exact walk_fwd_inorder. Qed.
+Print Assumptions C18_avl_walk_forward.
+
+Theorem C18_avl_walk_backward : forall (t : tree) (extra : nat),
+  walk SL (av_size t + extra) (av_last t) = rev (av_inorder t).
+Proof. exact walk_bwd_reverse. Qed.
+Print Assumptions C18_avl_walk_backward.
+
+Theorem C18_avl_walk_postorder : forall (t : tree) (extra : nat),
+  walk_post (av_size t + 1 + extra) (av_first_post t) = av_postorder t.
+Proof. exact walk_post_all. Qed.
+Print Assumptions C18_avl_walk_postorder.
+
+(* every position a walk reaches is a node of the tree the walk started in (the parent chain always rebuilds that tree) *)
+Theorem C18_avl_walk_stays_in_tree :
+  (forall (d : side) (t : tree) (p : pos), descend d t [] = Some p -> fst p <> Leaf /\ zip_up (fst p) (snd p) = t) /\
+  (forall (d : side) (p p' : pos), fst p <> Leaf -> step_in_order d p = Some p' ->
+     fst p' <> Leaf /\ zip_up (fst p') (snd p') = zip_up (fst p) (snd p)).
+Proof. split; [exact first_in_tree | exact step_stays_in_tree]. Qed.
+Print Assumptions C18_avl_walk_stays_in_tree.
+
+(* why iwavl_for_each_in_postorder may free the node it visits: in the postorder sequence every node comes after all nodes
+   of both its subtrees, and the sequence holds every node exactly once *)
+Theorem C18_avl_postorder_children_first : forall (t l : tree) (k bf : Z) (r : tree), subtree (Node l k bf r) t ->
+  exists pre suf, av_postorder t = pre ++ (av_postorder l ++ av_postorder r ++ [k]) ++ suf.
+Proof. exact postorder_children_first. Qed.
+Print Assumptions C18_avl_postorder_children_first.
+
+Theorem C18_avl_postorder_once : forall t : tree, Permutation (av_postorder t) (av_inorder t).
+Proof. exact postorder_perm_inorder. Qed.
+Print Assumptions C18_avl_postorder_once.
+
+(* the height of every balanced tree is logarithmic: 2 ^ (height / 2) <= size + 1 *)
+Theorem C18_avl_height_log : forall t : tree, balanced t -> (2 ^ (height t / 2) <= Z.of_nat (av_size t) + 1)%Z.
+Proof. exact balanced_height_log. Qed.
+Print Assumptions C18_avl_height_log.
+
 (* ================================================================ memory pool (iwpool.c, allocation arithmetic) *)
 Theorem C18_pool_alloc_ok : forall (p : pool) (n : nat), p_wf p ->
   let '(p', (u, off)) := p_alloc p n in
@@ -303,6 +782,49 @@ Theorem C18_pool_regions_disjoint : forall ops : list pop,
   regions_ok (fst (p_run p_create_empty ops)) (snd (p_run p_create_empty ops)).
 Proof. exact pool_regions_disjoint. Qed.
 Print Assumptions C18_pool_regions_disjoint.
+
+(* the same for every well-formed start, with the invariant of the pool itself and the order of the regions inside a unit.  The
+   operation type covers every allocating call: PAlloc = iwpool_alloc / iwpool_calloc, PStrdup = the strndup family and
+   iwpool_printf / printf_va (one block of len + 1), PCstrarr = iwpool_copy_cstring_array, PAllocs = a call that makes several
+   requests in a row - iwpool_split_string / iwpool_printf_split ask for the sizes [split_sizes] (next theorems) *)
+Theorem C18_pool_run_inv : forall (p0 : pool) (ops : list pop), p_wf p0 ->
+  p_wf (fst (p_run p0 ops)) /\ regions_ok (fst (p_run p0 ops)) (snd (p_run p0 ops)) /\
+  (forall i j r1 r2, (i < j)%nat ->
+     nth_error (snd (p_run p0 ops)) i = Some r1 -> nth_error (snd (p_run p0 ops)) j = Some r2 ->
+     r_unit r1 = r_unit r2 -> (r_off r1 + r_size r1 <= r_off r2)%nat).
+Proof. exact pool_run_inv. Qed.
+Print Assumptions C18_pool_run_inv.
+
+(* iwpool_split_string (model UT/PoolStr.v: the loop as written, byte level).  For EVERY haystack that is a C string (no zero byte
+   inside), every separator set and both values of ignore_whitespace: the tokens are exactly the plain reference - split at every
+   separator byte, a final EMPTY piece dropped, every piece trimmed of blanks (32, 9..13) when asked - and no read of the haystack
+   goes beyond its terminator (fault flag false; defect bf5efac read haystack[-1]) *)
+Theorem C18_pool_split_correct : forall (h seps : list Z) (ws : bool), Forall (fun b => b <> 0%Z) h ->
+  split_string h seps ws = (split_ref h seps ws, false).
+Proof. exact split_string_correct. Qed.
+Print Assumptions C18_pool_split_correct.
+
+(* memory safety of the writes: at most strlen tokens, so ret[j++] = s and the final ret[j] = 0 stay inside the array of strlen + 1
+   pointers requested first; every token block has room for its bytes and the terminator (len + 1) *)
+Theorem C18_pool_split_bounds : forall (h seps : list Z) (ws : bool),
+  let sizes := split_sizes h seps ws in
+  Forall (fun b => b <> 0%Z) h ->
+  hd 0%nat sizes = (P_PTR_SIZE * (length h + 1))%nat /\
+  (P_PTR_SIZE * (length (fst (split_string h seps ws)) + 1) <= hd 0%nat sizes)%nat /\
+  tl sizes = map (fun t => (length t + 1)%nat) (split_ref h seps ws).
+Proof. exact split_allocs_ok. Qed.
+Print Assumptions C18_pool_split_bounds.
+
+(* a split whose token blocks cross the end of the unit: pool of 96 bytes, the pointer array takes 80, two tokens fit, the third
+   one opens a new unit of 104 + 96 bytes *)
+Example C18_pool_split_example :
+  let h := [32; 97; 32; 44; 44; 98; 99; 59; 32]%Z in      (* " a ,,bc; " *)
+  split_string h [44; 59]%Z true = ([[97]; []; [98; 99]; []]%Z, false) /\
+  split_ref h [44; 59]%Z false = [[32; 97; 32]; []; [98; 99]; [32]]%Z /\
+  (let '(p, rs) := p_split (p_create 96) h [44; 59]%Z true in
+   (p_usiz p, p_asiz p, p_units p) = (16, 200, [200; 96])%nat /\ map r_unit rs = [0; 0; 0; 1; 1]%nat /\
+   map r_off rs = [0; 80; 88; 0; 8]%nat).
+Proof. vm_compute. repeat split; reflexivity. Qed.
 
 Example C18_pool_example : p_wf (p_create 64) /\ p_wf p_create_empty.
 Proof. split; [apply p_create_wf | apply p_create_empty_wf]. Qed.
